@@ -443,3 +443,237 @@ def features(text):
         elif ty in (T.NUMBER, T.STRING, T.INDENT, T.FSTRING_START):
             feats.add(T.tok_name[ty])
     return frozenset(feats), sum(1 for t in toks if t[3] > t[2])
+
+
+# ---------------------------------------------------------------------------------------
+# forms derived from the grammar itself: every Scenic-specific rule with each optional part
+# absent / present, each repetition 0 / 1 / 2 times, each alternative taken
+
+NL, IND, DED = "<NEWLINE>", "<INDENT>", "<DEDENT>"
+_BLOCK = [NL, IND, "pass", NL, DED]
+GRAMMAR_TERMINALS = {
+    "NAME": ["N"], "NUMBER": ["1"], "STRING": ["'s'"], "NEWLINE": [NL], "INDENT": [IND], "DEDENT": [DED],
+    "ENDMARKER": [], "TYPE_COMMENT": None, "FSTRING_START": None, "FSTRING_MIDDLE": None, "FSTRING_END": None,
+    "SOFT_KEYWORD": None, "ASYNC": None, "AWAIT": None, "OP": None,
+    # Python nonterminals: one representative each
+    "expression": ["x"], "expressions": ["x"], "disjunction": ["x"], "conjunction": ["x"], "inversion": ["x"],
+    "comparison": ["x"], "bitwise_or": ["x"], "bitwise_xor": ["x"], "bitwise_and": ["x"], "shift_expr": ["x"],
+    "sum": ["x"], "term": ["x"], "factor": ["x"], "power": ["x"], "primary": ["x"], "await_primary": ["x"],
+    "atom": ["x"], "named_expression": ["x"], "star_expressions": ["x"], "star_expression": ["x"],
+    "star_named_expression": ["x"], "yield_expr": ["yield"], "lambdef": ["lambda", ":", "x"], "strings": ["'s'"],
+    "star_targets": ["t"], "star_target": ["t"], "single_target": ["t"], "params": ["a", ",", "b", "=", "1"],
+    "arguments": ["a", ",", "b", "=", "1"], "dotted_name": ["m", ".", "n"], "block": _BLOCK,
+    "statements": ["pass", NL], "statement": ["pass", NL], "simple_stmts": ["pass", NL], "simple_stmt": ["pass"],
+    "compound_stmt": ["if", "x", ":"] + _BLOCK, "except_block": ["except", "E", ":"] + _BLOCK,
+    "else_block": ["else", ":"] + _BLOCK, "finally_block": ["finally", ":"] + _BLOCK,
+}  # fmt: skip
+GRAMMAR_EXTRA_ROOTS = ("interrupt_when_block",)
+GRAMMAR_FORM_CONTEXTS = (
+    ("statement", "", ""),
+    ("behavior", "behavior B():\n", "    "),
+    ("assignment", "x = ", None),
+    ("require", "require ", None),
+    ("specifier", "ego = new Object ", None),
+    ("continuation", "ego = new Object,\n", "    "),
+    ("setup", "scenario S():\n    setup:\n", "        "),
+    ("class", "class C:\n", "    "),
+)
+PRODUCT_LIMIT = 48
+RULE_LIMIT = 300
+
+
+def _is_scenic_rule(name):
+    return (name.startswith("scenic_") or name in GRAMMAR_EXTRA_ROOTS) and "invalid" not in name
+
+
+class _Expander:
+    def __init__(self, rules):
+        self.rules = rules
+        self._min = {}
+        self.truncated = {}
+
+    # -- a shortest expansion of any rule (fallback representative) -------------------------
+    def minimal(self, name, stack=()):
+        if name in GRAMMAR_TERMINALS:
+            return GRAMMAR_TERMINALS[name]
+        if name in self._min:
+            return self._min[name]
+        if name in stack or name not in self.rules or name.startswith("invalid_"):
+            return None
+        best = None
+        for alt in self.rules[name].rhs.alts:
+            seq = self._min_items([i.item for i in alt.items], stack + (name,))
+            if seq is not None and (best is None or len(seq) < len(best)):
+                best = seq
+        if not stack:
+            self._min[name] = best
+        return best
+
+    def _min_items(self, items, stack):
+        out = []
+        for it in items:
+            s = self._min_item(it, stack)
+            if s is None:
+                return None
+            out += s
+        return out
+
+    def _min_item(self, it, stack):
+        t = type(it).__name__
+        if t == "StringLeaf":
+            return [it.value[1:-1]]
+        if t == "NameLeaf":
+            return self.minimal(it.value, stack)
+        if t in ("Opt", "Repeat0", "PositiveLookahead", "NegativeLookahead", "Cut"):
+            return []
+        if t in ("Repeat1", "Forced"):
+            return self._min_item(it.node, stack)
+        if t == "Gather":
+            return self._min_item(it.node, stack)
+        if t in ("Group", "Rhs"):
+            rhs = it.rhs if t == "Group" else it
+            best = None
+            for alt in rhs.alts:
+                seq = self._min_items([i.item for i in alt.items], stack)
+                if seq is not None and (best is None or len(seq) < len(best)):
+                    best = seq
+            return best
+        return None
+
+    # -- all bounded expansions -------------------------------------------------------------
+    def rule(self, name, depth):
+        out, seen = [], set()
+        for alt in self.rules[name].rhs.alts:
+            for seq in self.alt(alt, depth):
+                k = tuple(seq)
+                if k not in seen:
+                    seen.add(k)
+                    out.append(seq)
+        if len(out) > RULE_LIMIT:
+            self.truncated[name] = len(out)
+            out = out[:RULE_LIMIT]
+        return out
+
+    def alt(self, alt, depth):
+        lists = []
+        for named in alt.items:
+            xs = self.item(named.item, depth)
+            if not xs:
+                return []
+            lists.append(xs)
+        total = 1
+        for xs in lists:
+            total *= len(xs)
+        if total <= PRODUCT_LIMIT:
+            combos = itertools.product(*lists)
+        else:  # one-at-a-time around the all-first baseline, plus all-last
+            base = [xs[0] for xs in lists]
+            cs = [tuple(base), tuple(xs[-1] for xs in lists)]
+            for i, xs in enumerate(lists):
+                for x in xs[1:]:
+                    cs.append(tuple(base[:i] + [x] + base[i + 1 :]))
+            combos = cs
+        out = []
+        for combo in combos:
+            seq = []
+            for part in combo:
+                seq += part
+            out.append(seq)
+        return out
+
+    def item(self, it, depth):
+        t = type(it).__name__
+        if t == "StringLeaf":
+            return [[it.value[1:-1]]]
+        if t == "NameLeaf":
+            name = it.value
+            if name.startswith("invalid_"):
+                return []
+            if name in GRAMMAR_TERMINALS:
+                v = GRAMMAR_TERMINALS[name]
+                return [] if v is None else [list(v)]
+            if _is_scenic_rule(name) and depth > 0 and name in self.rules:
+                return self.rule(name, depth - 1)
+            m = self.minimal(name)
+            return [] if m is None else [list(m)]
+        if t == "Opt":
+            return [[]] + self.item(it.node, depth)
+        if t == "Repeat0":
+            xs = self.item(it.node, depth)
+            return [[]] + xs + ([xs[0] + xs[0]] if xs else [])
+        if t == "Repeat1":
+            xs = self.item(it.node, depth)
+            return xs + ([xs[0] + xs[0]] if xs else [])
+        if t == "Gather":
+            xs = self.item(it.node, depth)
+            sep = self.item(it.separator, depth)
+            return xs + ([xs[0] + sep[0] + xs[-1]] if xs and sep else [])
+        if t == "Forced":
+            return self.item(it.node, depth)
+        if t in ("PositiveLookahead", "NegativeLookahead", "Cut"):
+            return [[]]
+        if t == "Group":
+            return self.rhs(it.rhs, depth)
+        if t == "Rhs":
+            return self.rhs(it, depth)
+        return []
+
+    def rhs(self, rhs, depth):
+        out = []
+        for alt in rhs.alts:
+            out += self.alt(alt, depth)
+        return out
+
+
+def render_tokens(seq):
+    """Token list with layout markers -> text (no trailing newline)."""
+    lines, cur, level = [], [], 0
+    for tok in seq:
+        if tok == NL:
+            lines.append("    " * level + " ".join(cur))
+            cur = []
+        elif tok == IND:
+            level += 1
+        elif tok == DED:
+            level = max(level - 1, 0)
+        else:
+            cur.append(tok)
+    if cur:
+        lines.append("    " * level + " ".join(cur))
+    return "\n".join(lines)
+
+
+def grammar_forms(gram_path, depth=2):
+    """-> ([(root rule, text)], stats).  Every Scenic-specific rule of the grammar, expanded with each
+    optional element absent / present, repetitions 0 / 1 / 2, every alternative (nested Scenic
+    rules down to `depth`), rendered and placed in each of GRAMMAR_FORM_CONTEXTS."""
+    from pegen.build import build_parser
+
+    grammar = build_parser(gram_path)[0]
+    ex = _Expander(grammar.rules)
+    roots = sorted(n for n in grammar.rules if _is_scenic_rule(n))
+    out, seen = [], set()
+    per_root = {}
+    for root in roots:
+        bodies = []
+        for seq in ex.rule(root, depth):
+            body = render_tokens(seq).rstrip("\n")
+            if body.strip() and body not in bodies:
+                bodies.append(body)
+        per_root[root] = len(bodies)
+        for body in bodies:
+            for label, head, indent in GRAMMAR_FORM_CONTEXTS:
+                if indent is None:
+                    if "\n" in body:  # continuation lines keep their own indentation
+                        first, rest = body.split("\n", 1)
+                        text = head + first + "\n" + rest + "\n"
+                    else:
+                        text = head + body + "\n"
+                else:
+                    text = head + "\n".join(indent + l if l else l for l in body.split("\n")) + "\n"
+                if text not in seen:
+                    seen.add(text)
+                    out.append((f"{root}@{label}", text))
+    stats = {"roots": len(roots), "bodies": sum(per_root.values()), "texts": len(out), "truncated_rules": ex.truncated,
+             "bodies_per_root": per_root}  # fmt: skip
+    return out, stats
